@@ -7,6 +7,8 @@ pub mod json;
 pub mod meter;
 pub mod refcodec;
 pub mod runner;
+pub mod searchbed;
+pub mod searchmon;
 pub mod simnet;
 pub mod supervise;
 pub mod verdict;
